@@ -14,6 +14,7 @@ def run(ctx):
     gen = [("c01_g", dict(Nets='{"n1", "n2", "n3"}', SubQoS="{0, 1, 2}", PubQoS="{0, 1, 2}", Subscribers='{"n1", "n3"}', MaxPub=8, MaxSubOps=5,
                           MaxCloses=2, EnPing="TRUE", EnDisconnect="TRUE"), dict(Topics="MCTopics3", Filters="MCFilters3", MatchRel="MCMatch3"),
             600 if q else 6000, 45)]
+    rc.liveness(ctx, "c01_live", dict(MaxPub=1 if q else 2, MaxSubOps=2, SubQoS="{1}", PubQoS="{0, 1}"))
     rc.run_router_property(ctx, "C01", mc, gen, INV)
 
 
